@@ -12,6 +12,11 @@ func init() {
 		variant{Prop: "C08", Name: "post-pass-trims-line-starts", File: "compiler/compiler.go", Old: "strings.TrimRight(line, \" \")", New: "strings.TrimSpace(line)", Rule: "R8.6", Construct: "per line"},
 		variant{Prop: "C08", Name: "benign-post-pass-keeps-the-start", File: "compiler/compiler.go", Old: "strings.Split(strings.TrimSpace(code), \"\\n\")", New: "strings.Split(strings.TrimRight(code, \" \\n\\t\"), \"\\n\")", Benign: true},
 		variant{Prop: "C08", Name: "benign-non-empty-test-via-string-length", File: "ast/code_writer_format.go", Old: "\tif cw.Builder.Len() > 0 {\n\t\tfor _, ch := range cw.pendings {", New: "\tif len(cw.Builder.String()) != 0 {\n\t\tfor _, ch := range cw.pendings {", Benign: true},
+		// R8.3 recording order / request fidelity
+		variant{Prop: "C08", Name: "mapping-recorded-before-the-separator", File: "ast/code_writer.go", Old: "func (cw *CodeWriter) WriteString(s string) {\n\tcw.flushPending()\n", New: "func (cw *CodeWriter) WriteString(s string) {\n\tcw.flushPending()\n\tcw.recordMapping()\n", More: []edit{{File: "ast/code_writer.go", Old: "\t\tcw.separate(s[0])\n\t}\n\tcw.recordMapping()\n", New: "\t\tcw.separate(s[0])\n\t}\n"}}, Rule: "R8.3", Construct: "WriteString: the mapping is recorded"},
+		variant{Prop: "C08", Name: "mapping-not-recorded-for-runes", File: "ast/code_writer.go", Old: "\t\tcw.separate(byte(r))\n\t}\n\tcw.recordMapping()\n", New: "\t\tcw.separate(byte(r))\n\t}\n", Rule: "R8.3", Construct: "WriteRune: the mapping is recorded"},
+		variant{Prop: "C08", Name: "request-line-and-column-crossed", File: "ast/code_writer_mapping.go", Old: "cw.Mapper.AddMapping(cw.mapping.line, cw.mapping.column)", New: "cw.Mapper.AddMapping(cw.mapping.column, cw.mapping.line)", Rule: "R8.3", Construct: "request passed to AddMapping"},
+		variant{Prop: "C14", Name: "pending-request-decides-a-separator", File: "ast/code_writer.go", Old: "\tcw.recordMapping()\n\tcw.emitString(s)", New: "\tif cw.mapping != nil {\n\t\tcw.emitRune(' ')\n\t}\n\tcw.recordMapping()\n\tcw.emitString(s)", Rule: "R14.6", Construct: "WriteString"},
 		// R10.9 exactness, R10.10
 		variant{Prop: "C10", Name: "eof-decided-by-read-position", File: bf, Old: "if l.position >= len(l.input) {\n\t\t\ttok = l.NewToken(token.EOF, \"\")", New: "if l.readPosition >= len(l.input) {\n\t\t\ttok = l.NewToken(token.EOF, \"\")", Rule: "R10.9", Construct: "end-of-input token"},
 		variant{Prop: "C10", Name: "benign-eof-by-read-position-past-end", File: bf, Old: "if l.position >= len(l.input) {\n\t\t\ttok = l.NewToken(token.EOF, \"\")", New: "if l.readPosition > len(l.input) {\n\t\t\ttok = l.NewToken(token.EOF, \"\")", Benign: true},
